@@ -28,6 +28,8 @@ inductive Err where
   | stdoutClosed
   | gradientNumber
   | gradientColorCount
+  | distinctCount
+  | distinctFixed
 deriving Repr, DecidableEq
 
 /-- `PastelError::message`. -/
@@ -41,6 +43,8 @@ def Err.message : Err → String
   | .stdoutClosed => "Output pipe has been closed"
   | .gradientNumber => "The specified color count must be larger than one"
   | .gradientColorCount => "The number of color arguments must be larger than one"
+  | .distinctCount => "The number of colors must be larger than one"
+  | .distinctFixed => "The number of fixed colors must be smaller than the total number of colors"
 
 /-- `main`: `StdoutClosed` exits silently with 0, every other error with 1. -/
 def Err.exitCode : Err → Nat
@@ -348,6 +352,45 @@ def runPaint (args : List String) (words : List String) (stdin : List StdinLine)
         if nn = "1" then { lines := [], err := none, tail := text } else { lines := [text], err := none }
   | _ => { lines := [], err := none }
 
+/-- A line whose content the model does not predict (a random colour, a distance). -/
+def unpredicted : String := "?"
+
+/-- `RandomCommand`: `args = [number]` (the strategy is validated by clap): `number` lines. -/
+def runRandom (args : List String) : Outcome :=
+  match args with
+  | [n] =>
+    match parseUsize n.toList with
+    | none => fail (.couldNotParseNumber n)
+    | some count => { lines := List.replicate count unpredicted, err := none }
+  | _ => { lines := [], err := none }
+
+/-- `DistinctCommand` up to the optimiser: `args = [number, print-minimal-distance]`, `fixed` are
+the fixed colours. The count is validated, the fixed colours are read in order, their number is
+compared with the count; then `number` colours are printed (or one distance). -/
+def runDistinct (args : List String) (fixed : List String) (stdin : List StdinLine) : Outcome :=
+  match args with
+  | [n, pmd] =>
+    match parseUsize n.toList with
+    | none => fail (.couldNotParseNumber n)
+    | some count =>
+      if count < 2 then fail .distinctCount
+      else
+        match collectArgs fixed stdin with
+        | .error e => fail e
+        | .ok cs =>
+          if cs.length > count then fail .distinctFixed
+          else { lines := List.replicate (if pmd = "1" then 1 else count) unpredicted, err := none }
+  | _ => { lines := [], err := none }
+
+/-- `PickCommand` where no colour picker is installed: `args = [count]`. -/
+def runPick (args : List String) : Outcome :=
+  match args with
+  | [n] =>
+    match parseUsize n.toList with
+    | none => fail (.couldNotParseNumber n)
+    | some count => if count = 0 then { lines := [], err := none } else fail .noColorPickerFound
+  | _ => { lines := [], err := none }
+
 /-- The whole run of a modelled subcommand: colours from the arguments if there are any,
 otherwise from stdin (which is a pipe). -/
 def run (sub : String) (args : List String) (colors : List String) (stdin : List StdinLine) : Outcome :=
@@ -356,6 +399,9 @@ def run (sub : String) (args : List String) (colors : List String) (stdin : List
   else if sub = "gradient" then runGradient args colors stdin
   else if sub = "sort-by" then runSort args colors stdin
   else if sub = "paint" then runPaint args colors stdin
+  else if sub = "random" then runRandom args
+  else if sub = "distinct" then runDistinct args colors stdin
+  else if sub = "pick" then runPick args
   else if colors.isEmpty then loopStdin (commandBody sub args) stdin
   else loopArgs (commandBody sub args) colors stdin
 
